@@ -186,20 +186,52 @@ def canon(r):
     return ("ok-other", type(r).__name__)
 
 
+def _model_factory(rec):
+    """closures from ONE factory: every response function has the same __qualname__ ('_model_factory.<locals>.model')"""
+    def model(x):
+        return rec(x)
+    return model
+
+
+def make_callable(rec, fstyle):
+    if fstyle == "closure":
+        return _model_factory(rec)
+    if fstyle == "lambda":
+        return (lambda x: rec(x))
+    return rec
+
+
 def make_vars(form, box):
     I = _I()
     if form == "L":
         return [I(float(a), float(b)) for a, b in box]
+    if form == "Li":        # Python ints, not floats
+        return [I(int(a), int(b)) for a, b in box]
     if form == "T":
         return tuple(I(float(a), float(b)) for a, b in box)
     if form == "V":
         return I(np.array([float(a) for a, _ in box]), np.array([float(b) for _, b in box]))
+    if form == "Vi":        # integer-dtype bound arrays
+        return I(np.array([int(a) for a, _ in box], dtype=np.int64), np.array([int(b) for _, b in box], dtype=np.int64))
+    if form == "Vn":        # bounds are negative-stride views of a matrix stored in reversed row order
+        M = np.array([[float(a), float(b)] for a, b in box][::-1])
+        return I(lo=M[::-1, 0], hi=M[::-1, 1])
+    if form == "Vf":        # bounds are columns of a Fortran-ordered matrix (non-contiguous views)
+        M = np.asfortranarray(np.array([[float(a), float(b), 0.0] for a, b in box]))
+        return I(lo=M[:, 0], hi=M[:, 1])
     if form == "S":
         return I(float(box[0][0]), float(box[0][1]))
     raise ValueError(form)
 
 
-def run_b2b(e, box, form, strat, style, nsub):
+def snapshot_vars(v):
+    I = _I()
+    if isinstance(v, I):
+        return ("I", np.array(v.lo, dtype=float).tolist(), np.array(v.hi, dtype=float).tolist())
+    return tuple(snapshot_vars(x) for x in v)
+
+
+def run_b2b(e, box, form, strat, style, nsub, fstyle="object"):
     from pyuncertainnumber.propagation.b2b import b2b
     f = Func(e, len(box))
     kw = {}
@@ -207,8 +239,12 @@ def run_b2b(e, box, form, strat, style, nsub):
         kw["subinterval_style"] = style
     if nsub is not None:
         kw["n_sub"] = nsub
+    f.raw = f.vars = f.vars_snap = None
     try:
-        r = canon(b2b(make_vars(form, box), f, interval_strategy=strat, **kw))
+        f.vars = make_vars(form, box)
+        f.vars_snap = snapshot_vars(f.vars)
+        f.raw = b2b(f.vars, make_callable(f, fstyle), interval_strategy=strat, **kw)
+        r = canon(f.raw)
     except BaseException as ex:  # noqa
         r = ("err", err_kind(ex))
     return r, f
@@ -217,6 +253,7 @@ def run_b2b(e, box, form, strat, style, nsub):
 def run_ep(e, box, method, style, nsub, high):
     from pyuncertainnumber.propagation.p import EpistemicPropagation, Propagation
     f = Func(e, len(box))
+    f.raw = f.vars = f.vars_snap = None
     kw = {}
     if style is not None:
         kw["subinterval_style"] = style
@@ -482,7 +519,7 @@ def gen_cases(ctx):
     for _ in range(ctx.scale(110, 550)):
         d = rng.choice([1, 2, 2, 3, 3, 4])
         e = gen_expr(rng, d, rng.choice([2, 3, 3, 4]), ["add", "sub", "mul", "mul", "pow"], [-3, -2, -1, 2, 3, 5])
-        form = rng.choice(["L", "L", "V", "T"]) if d > 1 else rng.choice(["L", "V", "S"])
+        form = rng.choice(["L", "L", "V", "T", "Li", "Vi", "Vf"]) if d > 1 else rng.choice(["L", "V", "S", "Li", "Vi"])
         add("exact", e, int_box(rng, d), form=form, exact=True)
     # B. general stream: dyadic boxes, division, exp, sqrt, any n_sub
     n_b = ctx.scale(110, 550)
@@ -509,6 +546,79 @@ def gen_cases(ctx):
         if r[0] != "ok" or not all(math.isfinite(v) and abs(v) < 1e12 for v in r[1:]):
             continue
         add("monotone", e, box, mono=True)
+    # C2. thin but not degenerate sides at large offsets, and tiny magnitudes (anything that replaces == by isclose collapses them)
+    named_thin = [(200000.0, 200001.0), (1000.0, 1000.03), (300.0, 300.002), (-200001.0, -200000.0), (1e6, 1e6 + 1e-3), (1.0, 1.0 + 1e-9)]
+
+    def thin_side():
+        if rng.random() < 0.45:
+            return rng.choice(named_thin)
+        o = rng.choice([1.0, 7.5, 300.0, 1000.0, 2e5, 1e6, -3.0, -1000.0, -2e5])
+        w = abs(o) * rng.choice([1e-9, 1e-8, 1e-7, 1e-6, 5e-6, 1e-5])
+        return (o, o + w)
+    thin_fixed = [
+        (("add", ("mul", ("v", 0), ("v", 1)), ("v", 0)), [(200000.0, 200001.0), (3.0, 4.0)]),
+        (("sub", ("mul", ("c", 2), ("v", 0)), ("v", 1)), [(1000.0, 1000.03), (300.0, 300.002)]),
+        (("mul", ("v", 0), ("sub", ("v", 1), ("v", 2))), [(1.0, 2.0), (200000.0, 200001.0), (199999.0, 200000.0)]),
+        (("sub", ("mul", ("v", 0), ("v", 0)), ("v", 0)), [(1000.0, 1000.03)]),
+    ]
+    thin_cf = [("direct", None, None), ("endpoints", None, None), ("subinterval", "direct", 4), ("subinterval", "endpoints", 4),
+               ("subinterval", "endpoints", 1), ("subinterval", "direct", 3), ("subinterval", "endpoints", 3)]
+    for e, box in thin_fixed:
+        add("thin", e, box, form="L" if len(box) > 1 else "S", cf=thin_cf)
+    for _ in range(ctx.scale(24, 240)):
+        d = rng.choice([1, 2, 2, 3])
+        box = [thin_side() if (j == 0 or rng.random() < 0.4) else dyadic_box(rng, 1)[0] for j in range(d)]
+        rng.shuffle(box)
+        e = gen_expr(rng, d, 2, ["add", "sub", "mul", "mul"], [-2, 0.5, 2, 3])
+        r, _ = run_b2b(e, box, "L", "direct", None, None)
+        if r[0] != "ok":
+            continue
+        n = rng.choice([2, 3, 4])
+        add("thin", e, box, form=rng.choice(["L", "V"]) if d > 1 else rng.choice(["L", "V", "S"]),
+            cf=[("direct", None, None), ("endpoints", None, None), ("subinterval", "direct", n), ("subinterval", "endpoints", n)])
+    tiny_sides = [(2e-9, 8e-9), (-5e-9, 3e-9), (1e-12, 4e-12), (-7e-10, -2e-10), (0.0, 6e-9)]
+    for _ in range(ctx.scale(10, 100)):
+        d = rng.choice([1, 2, 3])
+        box = [rng.choice(tiny_sides) for _ in range(d)]
+        terms = [("mul", ("c", rng.choice([-3, -1, 0.5, 2, 4])), ("v", j)) for j in range(d)]
+        e = terms[0]
+        for t in terms[1:]:
+            e = (rng.choice(["add", "sub"]), e, t)
+        if rng.random() < 0.5:
+            e = ("add", e, ("v", rng.randrange(d)))
+        n = rng.choice([2, 3, 4])
+        add("tiny", fold(e), box, form="L" if d > 1 else rng.choice(["L", "S", "V"]), mag_floor=0.0,
+            cf=[("direct", None, None), ("endpoints", None, None), ("subinterval", "direct", n), ("subinterval", "endpoints", n)])
+    # C3. extreme constants as number operands (below machine epsilon, above 1e15)
+    xconsts = [1e-20, 2.0 ** -60, 1.380649e-23, 1e18, -1e18, 3e15, -2.0 ** -70]
+    for k in range(ctx.scale(14, 140)):
+        d = rng.choice([1, 2])
+        c0 = xconsts[k % len(xconsts)]
+        v0, v1 = ("v", 0), ("v", d - 1)
+        e = rng.choice([("add", ("mul", ("c", c0), v0), v1), ("sub", v1, ("mul", v0, ("c", c0))), ("div", v0, ("c", c0)),
+                        ("mul", ("c", c0), ("mul", v0, v1)), ("add", ("add", v0, ("c", c0)), v1), ("sub", ("c", c0), ("mul", v0, v1)),
+                        ("div", ("c", c0), ("add", v0, ("c", 5)))])
+        box = dyadic_box(rng, d)
+        add("extreme-const", e, box, mag_floor=0.0,
+            cf=[("direct", None, None), ("endpoints", None, None), ("subinterval", "direct", 2), ("subinterval", "endpoints", 3)])
+    # C4. sequences: different response functions with the same __qualname__ (closures of one factory, lambdas), one after
+    #     the other on the same box and on its re-tilings
+    seq_fns = [("sub", ("mul", ("v", 0), ("v", 1)), ("v", 0)), ("add", ("mul", ("c", 4), ("v", 0)), ("mul", ("c", -2), ("v", 1))),
+               ("mul", ("v", 0), ("v", 1)), ("sub", ("pow", ("v", 0), 2), ("mul", ("c", 3), ("v", 1))), ("add", ("v", 0), ("v", 1))]
+    for fstyle in ("closure", "lambda", "object"):
+        box = int_box(rng, 2)
+        while box[0][0] == box[0][1] or box[1][0] == box[1][1]:
+            box = int_box(rng, 2)
+        for e in seq_fns:
+            add("sequence", e, box, exact=True, fstyle=fstyle,
+                cf=[("endpoints", None, None), ("subinterval", "endpoints", 2), ("subinterval", "endpoints", 4), ("direct", None, None)])
+    # C5. a vector Interval whose bound arrays are negative-stride views (oracle only while KF-C13-nditer-order is open)
+    for e, box in ((("sub", ("mul", ("v", 0), ("v", 1)), ("v", 0)), [(-1, 2), (3, 5)]),
+                   (("add", ("mul", ("v", 0), ("v", 0)), ("mul", ("v", 1), ("v", 2))), [(-1, 1), (2, 3), (-4, -2)]),
+                   (("sub", ("mul", ("c", 2), ("v", 0)), ("v", 1)), [(0, 1), (5, 9)])):
+        add("negstride", e, box, form="Vn", nomodel=True,
+            cf=[("direct", None, None), ("endpoints", None, None), ("subinterval", "direct", 2), ("subinterval", "endpoints", 2),
+                ("subinterval", "direct", 1)])
     # D. malformed / rejected inputs (compared on error kind)
     mf = [
         dict(e=("mul", ("v", 0), ("v", 1)), box=[(1, 2), (3, 4)], cf=[("ga_typo", None, None), ("subinterval", None, 2),
@@ -646,7 +756,11 @@ def run(ctx: core.Check, cases=None):
                 "be EQUAL), general (dyadic boxes, / exp sqrt, n_sub 1..8: within 2^12*size ulp of the largest intermediate), "
                 "monotone-by-construction, malformed (unknown strategy, missing style/n_sub, zero in divisor, sqrt of negative, "
                 "empty list, variable index out of range), routing (EpistemicPropagation / Propagation method names), negative "
-                "powers (oracle only). d = 1..4 in list, tuple, vector-Interval and scalar-Interval form. One evaluation = one "
+                "powers (oracle only), thin (sides of relative width 1e-9..1e-5 at offsets up to 1e6), tiny (sides of magnitude 1e-12..1e-8), "
+                "extreme-const (number operands 1e-20 .. 1e18), sequence (different functions with one __qualname__ on one box), negstride "
+                "(bounds that are negative-stride views; oracle only). d = 1..4 in list, tuple, vector-Interval (float, int64, Fortran-order) "
+                "and scalar-Interval form; response functions passed as callable object, closure of one factory, or lambda. Every result "
+                "object and operand is re-read after all calls; a sample of runs is repeated at the end.  One evaluation = one "
                 "(expression, box, strategy, style, n_sub) run of b2b; non-trivial unless the expression is a single variable; "
                 "distinct on (expression, box, form, configuration).")
     ctx.assumptions = [
@@ -670,7 +784,7 @@ def run(ctx: core.Check, cases=None):
             runs.append((ci, "b2b", cf))
         if "route" in c:
             runs.append((ci, "ep", c["route"]))
-    FORMW = {"L": "L", "T": "L", "V": "V", "S": "S"}
+    FORMW = {"L": "L", "Li": "L", "T": "L", "V": "V", "Vi": "V", "Vn": "V", "Vf": "V", "S": "S"}
 
     def mk_req(i, tab):
         ci, kind, cf = runs[i]
@@ -704,7 +818,7 @@ def run(ctx: core.Check, cases=None):
         e, box = c["e"], c["box"]
         d = len(box)
         if kind == "b2b":
-            impl, fobj = run_b2b(e, box, c["form"], *cf)
+            impl, fobj = run_b2b(e, box, c["form"], *cf, fstyle=c.get("fstyle") or ("object", "closure", "lambda")[i % 3])
             key = (ci, cf)
         else:
             impl, fobj = run_ep(e, box, cf["method"], cf["style"], cf["nsub"], cf["high"])
@@ -758,6 +872,29 @@ def run(ctx: core.Check, cases=None):
                     else:
                         ctx.tie_bad(c["stream"], cj(c, cf, what="corners"), arr.tolist(), mc[:300])
 
+    # ---- results kept alive: every result object and every operand is re-read after ALL calls were made ------------
+    for (ci, kcf), fobj in captured.items():
+        c = cases[ci]
+        if getattr(fobj, "raw", None) is not None and canon(fobj.raw) != results[(ci, kcf)]:
+            ctx.fail({"call": "b2b", "what": "result-changed-after-return", "stream": c["stream"], "form": c["form"]},
+                     cj(c, kcf, recorded=list(results[(ci, kcf)]), now=list(canon(fobj.raw))),
+                     f"the Interval returned for {show_expr(c['e'])} over {c['box']} {kcf} read {results[(ci, kcf)]} when returned and "
+                     f"{canon(fobj.raw)} after later calls (shared memory)")
+        if getattr(fobj, "vars", None) is not None and snapshot_vars(fobj.vars) != fobj.vars_snap:
+            ctx.fail({"call": "b2b", "what": "operand-modified", "stream": c["stream"], "form": c["form"]}, cj(c, kcf),
+                     f"the input intervals of b2b({kcf}) were modified by the call or by a later one")
+    # ---- a few dozen runs again, after everything else: identical results (no state carried between calls) --------
+    again = [(i, r) for i, r in enumerate(runs) if r[1] == "b2b" and cases[r[0]]["stream"] in ("witness", "exact", "general", "sequence", "thin")]
+    step = max(1, len(again) // ctx.scale(40, 200))
+    for i, (ci, kind, cf) in again[::step]:
+        c = cases[ci]
+        impl2, _ = run_b2b(c["e"], c["box"], c["form"], *cf, fstyle=("lambda", "object", "closure")[i % 3])
+        ctx.evaluations += 1
+        if impl2 != results[(ci, cf)]:
+            ctx.fail({"call": "b2b", "what": "second-evaluation-differs", "stream": c["stream"], "form": c["form"], "strategy": cf[0], "style": cf[1]},
+                     cj(c, cf, first=list(results[(ci, cf)]), second=list(impl2)),
+                     f"b2b({cf}) on {show_expr(c['e'])} over {c['box']} gave {results[(ci, cf)]} the first time and {impl2} when repeated "
+                     f"after other calls")
     # ---- semantic oracle, per case ----------------------------------------------------------------
     for ci, c in enumerate(cases):
         oracle_case(ctx, rng, ci, c, results, captured)
@@ -772,7 +909,7 @@ def tolerance(c):
         c["_tol"] = F(0)
         return c["_tol"]
     I = _I()
-    mag = 1.0
+    mag = float(c.get("mag_floor", 1.0))
     X = [I(float(a), float(b)) for a, b in c["box"]]
     for s in subexprs(c["e"]):
         try:
@@ -784,7 +921,7 @@ def tolerance(c):
                         mag = max(mag, abs(v))
         except BaseException:  # noqa
             pass
-    c["_tol"] = F(2 ** 12 * size(c["e"])) * F(core.ulp(mag))
+    c["_tol"] = F(2 ** 12 * size(c["e"])) * F(core.ulp(max(mag, 1e-300)))
     return c["_tol"]
 
 
